@@ -66,11 +66,36 @@ type cache struct {
 	engs      [engineKindCount]wasm.Engine
 	fileCache filecache.Cache
 	initOnces [engineKindCount]sync.Once
+	// engFeatures are the features engs were created with. An engine is bound to the features it was
+	// created with, so runtimes configured with other features get an engine of their own in moreEngs.
+	engFeatures [engineKindCount]api.CoreFeatures
+	moreEngs    map[engineKey]wasm.Engine
+	mux         sync.Mutex
+}
+
+// engineKey identifies an engine shared through the cache.
+type engineKey struct {
+	kind     engineKind
+	features api.CoreFeatures
 }
 
 func (c *cache) initEngine(ek engineKind, ne newEngine, ctx context.Context, features api.CoreFeatures) wasm.Engine {
-	c.initOnces[ek].Do(func() { c.engs[ek] = ne(ctx, features, c.fileCache) })
-	return c.engs[ek]
+	c.initOnces[ek].Do(func() { c.engs[ek], c.engFeatures[ek] = ne(ctx, features, c.fileCache), features })
+	if c.engFeatures[ek] == features {
+		return c.engs[ek]
+	}
+	c.mux.Lock()
+	defer c.mux.Unlock()
+	key := engineKey{ek, features}
+	eng, ok := c.moreEngs[key]
+	if !ok {
+		eng = ne(ctx, features, c.fileCache)
+		if c.moreEngs == nil {
+			c.moreEngs = map[engineKey]wasm.Engine{}
+		}
+		c.moreEngs[key] = eng
+	}
+	return eng
 }
 
 // Close implements the same method on the Cache interface.
@@ -80,6 +105,13 @@ func (c *cache) Close(_ context.Context) (err error) {
 			if err = eng.Close(); err != nil {
 				return
 			}
+		}
+	}
+	c.mux.Lock()
+	defer c.mux.Unlock()
+	for _, eng := range c.moreEngs {
+		if err = eng.Close(); err != nil {
+			return
 		}
 	}
 	return
